@@ -76,7 +76,8 @@ class C18(Suite):
     props_module = "Cpppo.Props.C18"
     rule = ("histories of 1-4 rotated files (1-4 records each, equal and increasing timestamps, comments, blank "
             "lines, corrupt-timestamp lines, unusable payloads, gz/bz2 copies with or without the plain file, files "
-            "logged in several logger sessions: close/re-open, buffering() changes, a second logger on the path) x "
+            "logged in several logger sessions: close/re-open, buffering() changes, a second logger on the path; "
+            "optionally logged and replayed with encoding='utf-8' and non-ASCII comment text) x "
             "start point x look-ahead x factor x load schedule (with limit/upcoming; first calls at, after or before the "
             "wall-clock basis at which the start point is scheduled): exhaustive over small shapes "
             "plus seeded random, plus a malformed stream (empty files, corrupt first lines, disordered timestamps, "
@@ -147,6 +148,11 @@ class C18(Suite):
             yield {"files": [{"ext": ".0", "lines": [["c"], R(1000, 1), R(1010, 2), ["x", k], R(1020, 3)]},
                              {"ext": "", "lines": [R(1030, 4), ["r", 1035, "cut"], R(1040, 5)]}],
                    "hist": 990, "loads": step(990, 8), "scale": 100}
+        # logged and replayed with encoding='utf-8'; comments (non-ASCII) in front of and between the records
+        yield {"files": [{"ext": ".1", "lines": [["c"], R(1000, 1), ["c"], R(1010, 2)]},
+                         {"ext": ".0", "lines": [["c"], ["c"], R(1020, 3), R(1030, 4)], "copies": [".gz"]},
+                         {"ext": "", "lines": [R(1040, 5), ["c"], R(1050, 6)]}],
+               "hist": 990, "loads": step(990, 9), "scale": 100, "enc": "utf-8"}
         # the logger re-opens the file it is logging to, in each of the ways it can
         for how in ("close", "line", "sized", "new"):
             yield {"files": [{"ext": ".0", "lines": [R(1000, 1), R(1010, 2), R(1020, 3)], "sessions": [[2, how]]},
@@ -246,6 +252,13 @@ class C18(Suite):
             loads.append([c, None, None])
         case = {"files": files, "hist": hist, "la": la, "loads": loads, "scale": rng.choice([2, 2, 100, 1000]),
                 "factor": rng.choice([[1, 1], [1, 1], [2, 1], [1, 2], [4, 1], [5, 2]]), "jitter": rng.randint(0, 999)}
+        if rng.random() < 0.3:          # logged and replayed with encoding='utf-8': comments hold non-ASCII text
+            case["enc"] = "utf-8"
+            for f in files:
+                if rng.random() < 0.4:  # ... also in front of the file's first record
+                    f["lines"].insert(0, ["c"])
+                    if f.get("sessions"):
+                        f["sessions"] = [[j + 1, how] for j, how in f["sessions"]]
         if not malformed:
             # in-scope stream: repair an equal-timestamp boundary after a single-timestamp file
             while not self.boundary_ok(case):
@@ -355,6 +368,7 @@ class C18(Suite):
         path = os.path.join(self.root, "h.hst")
         tick = case.get("scale", 2) / 1000.0
         jit = case.get("jitter", 0)
+        enc = case.get("enc")          # the encoding= option of logger.comment/write and loader.load
         k = 0
         for f in case["files"]:
             fn = path + f["ext"]
@@ -381,11 +395,12 @@ class C18(Suite):
                         # what the logger is given carries sub-millisecond noise; the file holds milliseconds
                         now = EPOCH + ln[1] * tick + (((jit * 7919 + k * 104729) % 801 - 400) / 1e6 if jit else 0.0)
                         if isinstance(ln[2], dict):
-                            l.write({int(r): v for r, v in ln[2].items()}, now=now)
+                            l.write({int(r): v for r, v in ln[2].items()}, now=now, encoding=enc)
                         else:
                             l._append("\t".join((str(ht.timestamp(now)), json.dumps(None), RAW_PAYLOAD[ln[2]])) + "\n")
                     elif ln[0] == "c":
-                        l.comment("rotated")
+                        # with the encoding option the comments hold text that is not ASCII
+                        l.comment("rotated \u00e0 14h \u2013 \u00b0C \u2603" if enc else "rotated", encoding=enc)
                     elif ln[0] == "b":
                         l._append("   \t \n" if len(ln) > 1 and ln[1] else "\n")
                     else:
@@ -436,7 +451,7 @@ class C18(Suite):
             self.clock.now = BASIS + (cur - case["hist"]) * tick / factor
             up = None if upcoming is None else ht.timestamp(EPOCH + upcoming * tick)
             try:
-                ret, events = ld.load(limit=limit, upcoming=up)
+                ret, events = ld.load(limit=limit, upcoming=up, encoding=case.get("enc"))
             except Hang:
                 out.append("hang")
                 break
@@ -609,6 +624,6 @@ class C18(Suite):
         for i, l in enumerate(c["loads"]):
             if l[1] is not None or l[2] is not None:
                 yield {**c, "loads": c["loads"][:i] + [[l[0], None, None]] + c["loads"][i + 1:]}
-        for k, v in (("la", None), ("factor", [1, 1]), ("jitter", 0)):
+        for k, v in (("la", None), ("factor", [1, 1]), ("jitter", 0), ("enc", None)):
             if c.get(k) not in (None, v):
                 yield {**c, k: v}
